@@ -513,9 +513,9 @@ theorem entry_step_pop (c : Cfg) (σ : St) (a n r sp : Nat) (v : BitVec 64)
 theorem entry_append8 (a c : List (BitVec 8)) (b d : List (BitVec 8)) (h : a ++ b = c ++ d) (ha : a.length = 8) (hc : c.length = 8) :
     a = c ∧ b = d := List.append_inj h (by omega)
 
-theorem entry_epilogue_sim (env : Env) (haddr : Nat → Option Nat) (um : Bool) (c : Cfg) (L : JitAst.Layout) (σ0 σ : St) (s' : State)
+theorem entry_epilogue_sim (env : Env) (haddr : Nat → Option Nat) (um ud : Bool) (c : Cfg) (L : JitAst.Layout) (σ0 σ : St) (s' : State)
     (retAddr : Nat) (top : List (BitVec 8)) (r0 : BitVec 64)
-    (hv : JitAst.validate env.prog haddr um false c.code L = true)
+    (hv : JitAst.validate env.prog haddr um ud c.code L = true)
     (hsize : c.codeBase + c.code.size < 2 ^ 63)
     (hpad : LandingPad c L retAddr) (htop : ∃ pad, top = savedBytes c σ0 ++ pad)
     (hrip : σ.rip = retAddr) (hrax : σ.get 0 = r0) (hmem : MemRel σ.mem s'.mem)
